@@ -145,6 +145,7 @@ def stream_c(ctx):
         elif ending != eend:
             ctx.violation('segment_fetcher+NDNApp', f'ending:{eend}->{ending}', f'fetch ended with {ending}, specification demands {eend}', case)
         H.check_discipline(ctx, trace, ending, att, case)
+        H.check_asks(ctx, M, [retry, lifetime, int(mbf)], es, [t for t in trace if t[0] == 'ask'], case, 'segment_fetcher+NDNApp')
         # a lost Interest is re-expressed only after its lifetime has elapsed (virtual clock)
         asks = [t for t in trace if t[0] == 'ask']
         for j in range(1, len(asks)):
